@@ -97,9 +97,9 @@ EmptyTx == <<Begin, Commit>>
 StepsOf(op) ==
   CASE op = "APPEND" ->      \* APPEND A {m4}: Mailbox.Append -> actionCreateMessage; literal stored before the row is committed
          IF Design = "row_first"
-         THEN H(<<Begin, Rd("tx.GetMessageIDFromRemoteID"), CreateAdd("A", "m4", {}), Commit, Set("m4")>>, "recover")
+         THEN H(<<Begin, Rd("tx.GetMailboxMessageCountAndUID"), Rd("tx.GetMessageIDFromRemoteID"), CreateAdd("A", "m4", {}), Commit, Set("m4")>>, "recover")
               \o H(EmptyTx, "recover") \o H(<<Begin, Nop("tx.ClearRecentFlagInMailboxOnMessage"), Commit>>, "end")
-         ELSE H(<<Begin, Rd("tx.GetMessageIDFromRemoteID"), Set("m4"), CreateAdd("A", "m4", {}), Commit>>, "recover")
+         ELSE H(<<Begin, Rd("tx.GetMailboxMessageCountAndUID"), Rd("tx.GetMessageIDFromRemoteID"), Set("m4"), CreateAdd("A", "m4", {}), Commit>>, "recover")
               \o H(EmptyTx, IF AppendFix THEN "end" ELSE "recover")                                                 \* stateDBWrite: second transaction (state updates)
               \o H(<<Begin, Nop("tx.ClearRecentFlagInMailboxOnMessage"), Commit>>, "end")   \* flush
     [] op = "COPY" ->        \* COPY 1 B
@@ -129,7 +129,7 @@ StepsOf(op) ==
          H(<<Begin, Rd("tx.GetMessagesFlags"), Flag("m1", {"Flagged"}), Commit>>, "flush")
          \o H(EmptyTx, "flush") \o H(EmptyTx, "flush") \o H(EmptyTx, "end")
     [] op = "CREATE" ->      \* CREATE C/D creates C and C/D in one transaction
-         <<Begin, Rd("tx.GetMailboxCount"), Rd("tx.MailboxExistsWithName"), Rd("tx.MailboxExistsWithName"),
+         <<Begin, Rd("tx.MailboxExistsWithName"), Rd("tx.MailboxExistsWithName"), Rd("tx.GetMailboxCount"),
            MkBox("C"), MkBox("C/D"), Commit>>
     [] op = "DELETE" ->      \* DELETE B (subscribed, one message)
          <<Begin, Rd("tx.GetMailboxByName"), RmBox("B"), Commit>> \o EmptyTx
